@@ -6,7 +6,6 @@ use std::{
     fs::File,
     hash::{Hash, Hasher},
     io::Write,
-    iter::repeat,
     net::SocketAddr,
 };
 
@@ -2147,46 +2146,53 @@ impl ConfigState {
         }
 
         //pub certificates:    HashMap<SocketAddr, HashMap<CertificateFingerprint, (CertificateAndKey, Vec<String>)>>,
-        let my_certificates: HashSet<(SocketAddr, &Fingerprint)> = HashSet::from_iter(
-            self.certificates
-                .iter()
-                .flat_map(|(addr, certs)| repeat(*addr).zip(certs.keys())),
-        );
-        let their_certificates: HashSet<(SocketAddr, &Fingerprint)> = HashSet::from_iter(
-            other
+        // compare certificates by content, not only by fingerprint: the same
+        // certificate may be loaded with different overriding names
+        let keyed_certificates = |state: &'_ ConfigState| {
+            state
                 .certificates
                 .iter()
-                .flat_map(|(addr, certs)| repeat(*addr).zip(certs.keys())),
-        );
+                .flat_map(|(addr, certs)| {
+                    certs
+                        .iter()
+                        .map(move |(fingerprint, cert)| ((*addr, fingerprint.0.clone()), cert.clone()))
+                })
+                .collect::<BTreeMap<(SocketAddr, Vec<u8>), CertificateAndKey>>()
+        };
+        let my_certificates = keyed_certificates(self);
+        let their_certificates = keyed_certificates(other);
+        let mut removed_certificates = Vec::new();
+        let mut added_certificates = Vec::new();
+        for (key, res) in diff_map(my_certificates.iter(), their_certificates.iter()) {
+            match res {
+                DiffResult::Added => added_certificates.push(key),
+                DiffResult::Removed => removed_certificates.push(key),
+                DiffResult::Changed => {
+                    removed_certificates.push(key);
+                    added_certificates.push(key);
+                }
+            }
+        }
 
-        let removed_certificates = my_certificates.difference(&their_certificates);
-        let added_certificates = their_certificates.difference(&my_certificates);
-
-        for &(address, fingerprint) in removed_certificates {
+        for (address, fingerprint) in removed_certificates {
             v.push(
                 RequestType::RemoveCertificate(RemoveCertificate {
-                    address: SocketAddress::from(address),
-                    fingerprint: fingerprint.to_string(),
+                    address: SocketAddress::from(*address),
+                    fingerprint: Fingerprint(fingerprint.clone()).to_string(),
                 })
                 .into(),
             );
         }
 
-        for &(address, fingerprint) in added_certificates {
-            if let Some(certificate_and_key) = other
-                .certificates
-                .get(&address)
-                .and_then(|certs| certs.get(fingerprint))
-            {
-                v.push(
-                    RequestType::AddCertificate(AddCertificate {
-                        address: SocketAddress::from(address),
-                        certificate: certificate_and_key.clone(),
-                        expired_at: None,
-                    })
-                    .into(),
-                );
-            }
+        for key in added_certificates {
+            v.push(
+                RequestType::AddCertificate(AddCertificate {
+                    address: SocketAddress::from(key.0),
+                    certificate: their_certificates[key].clone(),
+                    expired_at: None,
+                })
+                .into(),
+            );
         }
 
         for address in added_tcp_listeners {
